@@ -1,0 +1,208 @@
+//! verification shims - only compiled with `--cfg may_verif`
+//!
+//! see `may_queue::verif`. This module adds virtual replacements for the
+//! blocking and timing primitives that the runtime uses (`std::thread`,
+//! `Instant`, the worker idle wait, `parking_lot` locks that are held across
+//! schedule points) so that a harness can run the unmodified runtime fully
+//! serialised under a virtual clock. Without installed hooks everything falls
+//! back to the real implementation.
+pub use may_queue::verif::*;
+
+use std::time::Duration;
+
+#[inline]
+pub fn now_ns() -> Option<u64> {
+    hooks().map(|h| h.now_ns())
+}
+
+pub const WORKER_KEY: usize = 0x1000;
+
+/// virtual idle wait of a worker, return false if hooks are not installed
+pub fn idle_wait(id: usize, timeout_ns: Option<u64>) -> bool {
+    match hooks() {
+        None => false,
+        Some(h) => {
+            let dl = timeout_ns.map(|t| h.now_ns() + t);
+            h.block(WORKER_KEY + id, dl);
+            true
+        }
+    }
+}
+
+pub fn wake_worker(id: usize) {
+    if let Some(h) = hooks() {
+        h.wake(WORKER_KEY + id)
+    }
+}
+
+/// `std::thread` look-alike
+pub mod thread {
+    use super::hooks;
+    use std::time::Duration;
+    pub use std::thread::{panicking, Result};
+
+    #[derive(Clone, Debug)]
+    pub enum Thread {
+        Virt(usize),
+        Real(std::thread::Thread),
+    }
+
+    impl Thread {
+        pub fn unpark(&self) {
+            match self {
+                Thread::Virt(k) => hooks().expect("hooks").wake(*k),
+                Thread::Real(t) => t.unpark(),
+            }
+        }
+    }
+
+    pub fn current() -> Thread {
+        match hooks() {
+            Some(h) => Thread::Virt(h.thread_key()),
+            None => Thread::Real(std::thread::current()),
+        }
+    }
+
+    pub fn park() {
+        match hooks() {
+            Some(h) => {
+                h.block(h.thread_key(), None);
+            }
+            None => std::thread::park(),
+        }
+    }
+
+    pub fn park_timeout(d: Duration) {
+        match hooks() {
+            Some(h) => {
+                h.block(h.thread_key(), Some(h.now_ns() + d.as_nanos() as u64));
+            }
+            None => std::thread::park_timeout(d),
+        }
+    }
+
+    pub fn sleep(d: Duration) {
+        super::sleep(d)
+    }
+
+    pub fn yield_now() {
+        match hooks() {
+            Some(h) => h.yield_now(),
+            None => std::thread::yield_now(),
+        }
+    }
+
+    /// only used for the runtime threads, the handle is never joined
+    pub fn spawn<F: FnOnce() + Send + 'static>(f: F) {
+        match hooks() {
+            Some(h) => h.spawn(String::from("rt"), Box::new(f)),
+            None => {
+                std::thread::spawn(f);
+            }
+        }
+    }
+}
+
+/// `std::time::Instant` look-alike on the virtual clock
+#[derive(Copy, Clone, Debug, PartialEq, Eq, PartialOrd, Ord)]
+pub enum Instant {
+    Virt(u64),
+    Real(std::time::Instant),
+}
+
+impl Instant {
+    pub fn now() -> Instant {
+        match now_ns() {
+            Some(t) => Instant::Virt(t),
+            None => Instant::Real(std::time::Instant::now()),
+        }
+    }
+
+    pub fn saturating_duration_since(&self, earlier: Instant) -> Duration {
+        match (self, earlier) {
+            (Instant::Virt(a), Instant::Virt(b)) => Duration::from_nanos(a.saturating_sub(b)),
+            (Instant::Real(a), Instant::Real(b)) => a.saturating_duration_since(b),
+            _ => Duration::ZERO,
+        }
+    }
+
+    pub fn duration_since(&self, earlier: Instant) -> Duration {
+        self.saturating_duration_since(earlier)
+    }
+
+    pub fn elapsed(&self) -> Duration {
+        Instant::now().saturating_duration_since(*self)
+    }
+}
+
+impl std::ops::Add<Duration> for Instant {
+    type Output = Instant;
+    fn add(self, d: Duration) -> Instant {
+        match self {
+            Instant::Virt(t) => Instant::Virt(t.saturating_add(d.as_nanos().min(u64::MAX as u128) as u64)),
+            Instant::Real(t) => Instant::Real(t + d),
+        }
+    }
+}
+
+impl std::ops::Sub<Instant> for Instant {
+    type Output = Duration;
+    fn sub(self, o: Instant) -> Duration {
+        self.saturating_duration_since(o)
+    }
+}
+
+/// `parking_lot` look-alike locks that never block in the OS while the caller
+/// holds the baton of a serialising harness
+pub mod lock {
+    use super::hooks;
+
+    fn relax() {
+        match hooks() {
+            Some(h) => h.yield_now(),
+            None => std::thread::yield_now(),
+        }
+    }
+
+    pub struct Mutex<T>(parking_lot::Mutex<T>);
+    impl<T> Mutex<T> {
+        pub fn new(t: T) -> Self {
+            Mutex(parking_lot::Mutex::new(t))
+        }
+        pub fn lock(&self) -> parking_lot::MutexGuard<'_, T> {
+            loop {
+                if let Some(g) = self.0.try_lock() {
+                    return g;
+                }
+                relax();
+            }
+        }
+    }
+
+    pub struct RwLock<T>(parking_lot::RwLock<T>);
+    impl<T> RwLock<T> {
+        pub fn new(t: T) -> Self {
+            RwLock(parking_lot::RwLock::new(t))
+        }
+        pub fn read(&self) -> parking_lot::RwLockReadGuard<'_, T> {
+            loop {
+                if let Some(g) = self.0.try_read() {
+                    return g;
+                }
+                relax();
+            }
+        }
+        pub fn write(&self) -> parking_lot::RwLockWriteGuard<'_, T> {
+            loop {
+                if let Some(g) = self.0.try_write() {
+                    return g;
+                }
+                relax();
+            }
+        }
+    }
+}
+
+// re-export of internals for differential tests
+pub use crate::sync::atomic_dur::AtomicDuration;
+pub use crate::timeout_list::{TimeOutList, TimerThread};
